@@ -93,6 +93,16 @@ fn shape<const D: usize>(dv: &[u8]) -> CaseResult {
     let back: Vec<i64> = w.iter().cloned().collect();
     let want: Vec<i64> = (0..len as i64).map(|k| 5000 + k).collect();
     vensure!(back == want, "index_mut", "dims {:?}: after writing a unique value through every index, iter() gives {:?}", dl, back);
+    // iter_mut visits the elements in the same row-major order
+    let mut im = t.clone();
+    for (k, x) in im.iter_mut().enumerate() {
+        *x = 9000 + k as i64;
+    }
+    for (k, idx) in idxs.iter().enumerate() {
+        let mut a = [0usize; D];
+        a.copy_from_slice(idx);
+        vensure!(im[a] == 9000 + k as i64, "iter_mut", "dims {:?}: iter_mut position {} is not index {:?}", dl, k, idx);
+    }
     // out of range in exactly one dimension => panic, never a silent alias
     let mut oob = 0;
     for dim in 0..D {
